@@ -1,0 +1,49 @@
+//go:build verif
+
+// Contracts for the verification machinery under /verif (contract-based deductive
+// verification). This file is comment-only, is excluded from every normal build by the
+// "verif" build tag, and declares nothing. See /verif/DESIGN.md §4.
+
+package fhirconv
+
+//@ func TimeToDuration(dt) (res)
+//@   ensures dt == nil ==> res == 0
+//@   ensures dt != nil && fits(int(dt.ValueUs) * 1000, int64(0)) ==> int(res) == int(dt.ValueUs) * 1000
+//@   assigns nothing
+
+// C15: for a time of day (0 <= ValueUs < 24h) the rendering is hh:mm:ss of the value with the
+// fraction digits the precision asks for, so that fhir.ParseTime reads the same value back
+//@ func TimeToString(val) (res)
+//@   requires val != nil && 0 <= val.ValueUs && val.ValueUs < 86400000000
+//@   let us = int(val.ValueUs)
+//@   let h = us / 3600000000
+//@   let m = (us % 3600000000) / 60000000
+//@   let s = (us % 60000000) / 1000000
+//@   let f = us % 1000000
+//@   ensures val.Precision == dtpb.Time_SECOND ==> res == sprintf_III("%02d:%02d:%02d", h, m, s)
+//@   ensures val.Precision == dtpb.Time_MILLISECOND ==> res == sprintf_IIII("%02d:%02d:%02d.%03d", h, m, s, f / 1000)
+//@   ensures val.Precision != dtpb.Time_SECOND && val.Precision != dtpb.Time_MILLISECOND ==> res == sprintf_IIII("%02d:%02d:%02d.%06d", h, m, s, f)
+//@   assigns nothing
+
+// C15: FHIR integer element -> Go integer succeeds exactly when the element's value is
+// representable in the target type, and then yields that value; otherwise the error is
+// ErrIntegerTruncated and the result 0. A nil element reads as 0.
+//@ func ToInteger(v) (res, err)
+//@   ensures v != nil ==> (err == nil) == fits(int(v.Value), res)
+//@   ensures v != nil && err == nil ==> int(res) == int(v.Value)
+//@   ensures v == nil ==> err == nil && int(res) == 0
+//@   ensures err != nil ==> is(err, ErrIntegerTruncated) && int(res) == 0
+//@   assigns nothing
+
+// C15: element -> time.Time keeps the instant exactly (an error only for a bad zone text)
+//@ func DateToTime(dt) (res, err)
+//@   ensures err == nil && dt != nil ==> tInst(res) == int(dt.ValueUs) * 1000 && civRanges(res)
+//@   defines err == nil ==> tOff(res) == zoneOffS(dt)
+//@   assigns nothing
+//@ func DateTimeToTime(dt) (res, err)
+//@   ensures err == nil && dt != nil ==> tInst(res) == int(dt.ValueUs) * 1000 && civRanges(res)
+//@   defines err == nil ==> tOff(res) == zoneOffS(dt)
+//@   assigns nothing
+//@ func parseLocation(zone) (res, err)
+//@   ensures err != nil ==> res == nil
+//@   assigns nothing
